@@ -2,7 +2,8 @@
 
 Case = {"config": "S"|"U", "total": 1..3, "default": bool, "delays": [cycles...],
         "calls": [{"abandon": bool, "mode": "value"|"raise", "cb": None|"run_sync"|"run", "cc": bool}],
-        "ctl": [["open", i] | ["cancel", i] | ["entered", i] | ["yield", k]]}
+        "ctl": [["open", i] | ["cancel", i] | ["ncancel", i] | ["entered", i] | ["yield", k]],
+        "callers": [[call indexes issued one after the other by one task] ...]}      (ncancel = Task.cancel() of the caller)
 """
 from __future__ import annotations
 
@@ -60,15 +61,37 @@ def _gen(g):
     calls = [{"abandon": g.chance(35), "mode": g.weighted([(75, "value"), (25, "raise")]),
               "cb": g.weighted([(60, None), (20, "run_sync"), (20, "run")]), "cc": g.chance(35),
               "nest": g.chance(40), "shielded": g.chance(30)} for _ in range(n)]
+    if g.chance(12):
+        # targeted shapes: a caller survives the cancellation of its first call and issues a second one while the
+        # first function is still running in its thread (abandoned, or orphaned by a native Task.cancel())
+        native = g.bool()
+        calls = [dict(c, cb=None) for c in calls[:3]]
+        while len(calls) < 3:
+            calls.append({"abandon": False, "mode": "value", "cb": None, "cc": False, "nest": False, "shielded": False})
+        calls[0]["abandon"] = not native
+        calls[0]["shielded"] = False
+        ctl = [["entered", 0], ["ncancel" if native else "cancel", 0], ["yield", g.int(1, 3)], ["entered", 1]]
+        rest = [["open", 0], ["yield", g.int(1, 3)], ["entered", 2], ["open", 1], ["open", 2]]
+        if g.bool():
+            rest[0], rest[3] = rest[3], rest[0]
+        return {"config": g.choice(["S", "S", "U"]), "total": g.choice([1, 1, 2]), "default": g.chance(25),
+                "delays": [g.int(0, 3) for _ in range(g.int(0, 5))], "calls": calls, "ctl": ctl + rest,
+                "callers": [[0, 1], [2]]}
     ctl = []
     for _ in range(g.int(2, 3 * n + 2)):
-        k = g.weighted([(40, "open"), (25, "cancel"), (20, "entered"), (15, "yield")])
+        k = g.weighted([(40, "open"), (22, "cancel"), (8, "ncancel"), (20, "entered"), (15, "yield")])
         if k == "yield":
             ctl.append(["yield", g.int(1, 4)])
         else:
             ctl.append([k, g.int(0, n - 1)])
+    # calls are issued by 1..n caller tasks, each running its calls one after the other (a caller survives the
+    # cancellation of one of its calls and goes on with the next)
+    m = g.int(1, n)
+    owner = [g.int(0, m - 1) for _ in range(n)]
+    callers = [[i for i in range(n) if owner[i] == c] for c in range(m)]
+    callers = [c for c in callers if c]
     return {"config": g.choice(["S", "S", "U"]), "total": g.int(1, 3), "default": g.chance(25),
-            "delays": [g.int(0, 3) for _ in range(g.int(0, 5))], "calls": calls, "ctl": ctl}
+            "delays": [g.int(0, 3) for _ in range(g.int(0, 5))], "calls": calls, "ctl": ctl, "callers": callers}
 
 
 _strategy = composite(_gen)
@@ -92,7 +115,15 @@ def run_once(case, out, stats):
     outcome = {}
     scopes = {}
     cancel_requested = set()
+    native_requested = set()
     gate_opened = set()
+    callers = case.get("callers") or [[i] for i in range(n)]
+    caller_of = {i: c for c, seq in enumerate(callers) for i in seq}
+    tasks = {}
+    current = {}
+    invoked = set()
+    stalled = set()
+    native_hit = set()
 
     def fn(i):
         spec = case["calls"][i]
@@ -143,30 +174,46 @@ def run_once(case, out, stats):
             lim = CapacityLimiter(total)
             limiter_arg = lim
 
-        async def caller(i):
-            spec = case["calls"][i]
-            var.set(i)
+        def anyio_cancel(e):
+            return bool(e.args) and isinstance(e.args[0], str) and e.args[0].startswith("Cancelled via cancel scope")
+
+        async def caller(c):
             import contextlib
-            with CancelScope(shield=bool(spec.get("shielded"))) as sc, \
-                    (CancelScope() if spec.get("nest") else contextlib.nullcontext()):
-                scopes[i] = sc      # with "nest" the cancelled scope is an ancestor of the one run_sync sits in
+            task = tasks[c] = asyncio.current_task()
+            for i in callers[c]:
+                spec = case["calls"][i]
+                var.set(i)
+                current[c] = i
                 try:
-                    r = await to_thread.run_sync(fn, i, abandon_on_cancel=spec["abandon"], limiter=limiter_arg)
-                    outcome[i] = ("value", r, time.monotonic(), i in gate_opened)
-                except Boom as e:
-                    outcome[i] = ("raised", e, time.monotonic(), i in gate_opened)
+                    with CancelScope(shield=bool(spec.get("shielded"))) as sc, \
+                            (CancelScope() if spec.get("nest") else contextlib.nullcontext()):
+                        scopes[i] = sc      # with "nest" the cancelled scope is an ancestor of the one run_sync sits in
+                        invoked.add(i)
+                        try:
+                            r = await to_thread.run_sync(fn, i, abandon_on_cancel=spec["abandon"], limiter=limiter_arg)
+                            outcome[i] = ("value", r, time.monotonic(), i in gate_opened)
+                        except Boom as e:
+                            outcome[i] = ("raised", e, time.monotonic(), i in gate_opened)
+                        except asyncio.CancelledError as e:
+                            outcome[i] = ("cancelled" if anyio_cancel(e) else "native-cancelled", None, time.monotonic(),
+                                          i in gate_opened)
+                            raise
+                        # the pending cancellation (non-abandon case) must land at the next checkpoint
+                        try:
+                            await anyio.lowlevel.checkpoint()
+                            outcome[i] += ("checkpoint-ok",)
+                        except asyncio.CancelledError:
+                            outcome[i] += ("checkpoint-cancelled",)
+                            raise
                 except asyncio.CancelledError:
-                    outcome[i] = ("cancelled", None, time.monotonic(), i in gate_opened)
-                    raise
-                # the pending cancellation (non-abandon case) must land at the next checkpoint
-                try:
-                    await anyio.lowlevel.checkpoint()
-                    outcome[i] += ("checkpoint-ok",)
-                except asyncio.CancelledError:
-                    outcome[i] += ("checkpoint-cancelled",)
-                    raise
-            if lim.borrowed_tokens > lim.total_tokens:
-                out.bad("borrowed-above-total", "", f"{lim.borrowed_tokens} > {lim.total_tokens}")
+                    # a native Task.cancel() issued by the controller: this caller handles it and carries on
+                    if c not in native_hit:
+                        raise
+                    task.uncancel()
+                finally:
+                    current[c] = None
+                if lim.borrowed_tokens > lim.total_tokens:
+                    out.bad("borrowed-above-total", "", f"{lim.borrowed_tokens} > {lim.total_tokens}")
 
         async def poll(ev, limit=25.0):
             t0 = time.monotonic()
@@ -198,13 +245,31 @@ def run_once(case, out, stats):
                             with lock:
                                 st["abandoned"].add(a)
                         sc.cancel()
+                elif k == "ncancel":
+                    c = caller_of[a]
+                    if current.get(c) == a and a in invoked and a not in outcome and a not in cancel_requested \
+                            and c not in native_hit:
+                        if st["entered"][a].is_set() and not st["finished"][a].is_set():
+                            stats["native_cancel_while_running"] += 1
+                        cancel_requested.add(a)
+                        native_requested.add(a)
+                        native_hit.add(c)
+                        with lock:
+                            st["abandoned"].add(a)      # the function runs on as an orphan, without a token
+                        tasks[c].cancel()
                 elif k == "entered":
                     # wait until call a has entered its function, unless it can never get there
                     t0 = time.monotonic()
                     while not st["entered"][a].is_set() and a not in outcome:
                         blocked = len([j for j in range(n) if st["entered"][j].is_set() and not st["finished"][j].is_set()
                                        and j not in st["abandoned"]]) >= total
-                        if blocked or a in cancel_requested or time.monotonic() - t0 > 1.0:
+                        if blocked or a in cancel_requested:
+                            break
+                        if time.monotonic() - t0 > 1.0:
+                            inflight = [j for j in invoked if j not in outcome]
+                            if a in invoked and len(inflight) <= total:
+                                # every call in progress holds a token, yet this one's function has not started
+                                stalled.add(a)
                             break
                         await anyio.sleep(0.001)
             # release everything
@@ -215,8 +280,8 @@ def run_once(case, out, stats):
         try:
             with anyio.fail_after(30):
                 async with create_task_group() as tg:
-                    for i in range(n):
-                        tg.start_soon(caller, i)
+                    for c in range(len(callers)):
+                        tg.start_soon(caller, c)
                     await anyio.sleep(0)
                     await anyio.sleep(0)
                     await controller()
@@ -236,6 +301,11 @@ def run_once(case, out, stats):
         # ---- verdicts
         if n > total:
             stats["more_calls_than_tokens"] += 1
+        if len(callers) < n:
+            stats["caller_with_several_calls"] += 1
+        for a in sorted(stalled):
+            out.bad("function-not-started", "", f"call {a} held a limiter token (calls in progress <= total_tokens) "
+                                                f"but its function had not started after 1 s")
         if st["max_nonabandoned"] > total:
             out.bad("thread-bound-exceeded", "", f"{st['max_nonabandoned']} functions running with total_tokens={total}")
         for i, spec in enumerate(case["calls"]):
@@ -248,7 +318,9 @@ def run_once(case, out, stats):
                 out.bad("context-not-propagated", "", f"call {i} saw {st['ctx'].get(i)!r}")
             if spec["cb"] and entered and st["cb"].get(i) != "gate-timeout":
                 r = st["cb"].get(i)
-                if isinstance(r, str) and r.startswith("raised:Cancelled") and i in cancel_requested:
+                if isinstance(r, str) and r.startswith("raised:") and i in native_requested:
+                    pass        # the orphaned function's caller context is gone
+                elif isinstance(r, str) and r.startswith("raised:Cancelled") and i in cancel_requested:
                     pass
                 elif not (isinstance(r, tuple) and r[:2] == ("loop", i) and r[2] == loop_ident):
                     out.bad("from-thread-callback-wrong", spec["cb"], f"call {i}: {r!r}")
@@ -261,12 +333,18 @@ def run_once(case, out, stats):
             elif kind == "raised":
                 if st["exc"].get(i) is not o[1]:
                     out.bad("wrong-result", "exception", f"call {i}: {o[1]!r}")
+            elif kind == "native-cancelled":
+                if caller_of[i] not in native_hit:
+                    out.bad("cancelled-without-request", "native", f"call {i}")
+                continue        # a native cancellation cuts through the shield: nothing more is promised for this call
             else:
                 if i not in cancel_requested:
                     out.bad("cancelled-without-request", "", f"call {i}")
                 if entered and not spec["abandon"]:
                     out.bad("cancellation-took-effect-before-function-finished", "",
                             f"call {i} (abandon_on_cancel=False) raised the cancellation although its function had started")
+            if i in native_requested:
+                continue
             if i in cancel_requested and kind != "cancelled":
                 # result still returned; then the cancellation must be delivered at the next checkpoint
                 if len(o) > 4 and o[4] != "checkpoint-cancelled":
@@ -302,13 +380,17 @@ def run_once(case, out, stats):
 def run_case(case) -> Outcome:
     out = Outcome()
     stats = dict.fromkeys(["cancelled_while_running", "cancelled_before_start", "more_calls_than_tokens",
-                           "watchdog_rerun"], 0)
+                           "watchdog_rerun", "native_cancel_while_running", "caller_with_several_calls",
+                           "stall_rerun"], 0)
     for attempt in range(3):
         trial = Outcome()
         try:
             run_once(case, trial, stats)
         except Hang:
             stats["watchdog_rerun"] += 1
+            continue
+        if any(v.rule == "function-not-started" for v in trial.viols) and attempt < 2:
+            stats["stall_rerun"] += 1       # time-based verdict: only counts if it shows on every run
             continue
         out.viols = trial.viols
         break
